@@ -190,8 +190,29 @@ func c09One(c *Ctx, rng *lab.RNG, cs c09Case) {
 		cl.Wait()
 		vals[k] = v
 	}
+	// in a quarter of the cases some residents are first overwritten with a LOWER cost: the capacity they give back
+	// is capacity a newcomer may use without evicting anything
+	if cs.Stream%4 == 1 {
+		for k := 0; k < npop && k < 3; k++ {
+			if cs.Costs[k] > 1 {
+				nv := cl.NextVal(k)
+				cl.Set(k, nv, cs.Costs[k]-1, 0)
+				cl.Wait()
+				vals[k] = nv
+				cs.Costs[k]--
+				if cs.IncClass == "fits" || cs.IncClass == "fits-exactly" {
+					cs.IncCost++ // still fits: the freed unit is usable
+				}
+			}
+		}
+		r.Obs("decisions_after_cost_lowering_overwrites", 1)
+	}
 	n0 := l.NumCallbacks()
 	pre := l.C.Snapshot()
+	var accounted int64
+	for _, x := range pre.KeyCosts {
+		accounted += x
+	}
 	if len(pre.KeyCosts) != npop {
 		// a fitting newcomer was not admitted: first clause of the statement
 		fail("fitting-newcomer-not-admitted", fmt.Sprintf("populating %d keys with total cost %d <= MaxCost %d left %d resident", npop, pre.Used, cs.MaxCost, len(pre.KeyCosts)), nil)
@@ -342,7 +363,8 @@ func c09One(c *Ctx, rng *lab.RNG, cs c09Case) {
 	r.Obs("victims", int64(len(evicted)))
 
 	// ---- black-box clauses of the statement
-	fits := !wasResident && cs.IncCost <= cs.MaxCost && pre.Used+cs.IncCost <= pre.MaxCost
+	// "fits in the remaining capacity" is judged from the costs the cache accounts for its resident keys
+	fits := !wasResident && cs.IncCost <= cs.MaxCost && accounted+cs.IncCost <= pre.MaxCost
 	if fits {
 		if !admitted || len(evicted) > 0 || rejected {
 			fail("fitting-newcomer-not-admitted-cleanly", fmt.Sprintf("newcomer with cost %d fits (used %d of %d) but admitted=%v victims=%d rejected=%v", cs.IncCost, pre.Used, pre.MaxCost, admitted, len(evicted), rejected), detail)
